@@ -15,27 +15,37 @@ proved by structural induction, nothing is bounded.
   `inAlphabet` (XrlParser/Spec/Formula.lean, written from the property text)
 * `elementsOf T` is the specification's element table read off the model's tables (symbol ↦ Z by the lookup the
   parser uses, weight = `AtomicWeight`, absent when that call fails).
+* `v : Variant` says which of the proposed repairs C07-1 (locale), C07-2 (atomic weights), C07-3 (leaks) the
+  working tree contains; `asIs` is the shipped code.  Statements that hold for every `v` quantify over it; the
+  three clauses the shipped code violates are stated as `…_full v`, refuted for the unrepaired switch
+  (`…_full_fails`, on a witness replayed on the library), proved with the hypothesis that excludes exactly the
+  witness set (`…_partial`), and proved in full for the repaired switch (`…_fixed`).
 -/
 namespace XrlParser.C07
 open Hand Spec
 
 /-- `CompoundParser(s, &error)` under locale state `l` -/
-def parse (T : Tables) (l : Locale) (s : String) : ParseOut := compoundParser T l (some s.toList)
+def parse (v : Variant) (T : Tables) (l : Locale) (s : String) : ParseOut := compoundParser v T l (some s.toList)
 
 /-! ## accepted formulas -/
 
 /-- elements strictly ascending without duplicates, exactly the elements of the formula, counts = algebraic
     expansion, `nAtomsAll` = Σ counts, `molarMass` = Σ AtomicWeight·count — for every well-formed formula, whether
     or not its elements have weights. -/
-theorem parse_print_counts (T : Tables) (l : Locale) (f : Formula) (hf : f.WF (elementsOf T)) :
-    ∃ cd, (parse T l f.print).result = .ok cd ∧
+theorem parse_print_counts (v : Variant) (T : Tables) (l : Locale) (f : Formula) (hf : f.WF (elementsOf T))
+    (hw : v.weightFix = false ∨ f.Weighted (elementsOf T)) :
+    ∃ cd, (parse v T l f.print).result = .ok cd ∧
       StrictAsc cd.elements ∧ cd.nAtoms.length = cd.elements.length ∧
       (∀ z, z ∈ cd.elements ↔ 0 < f.eval (elementsOf T) z) ∧
       (∀ z, countIn cd.elements cd.nAtoms z = f.eval (elementsOf T) z) ∧
       cd.nAtomsAll = sumL cd.nAtoms ∧
       cd.molarMass = sumL (cd.elements.map (fun z => atomicWeight T z * f.eval (elementsOf T) z)) := by
   obtain ⟨ca, k, h1, h2⟩ := parseSimple_ok T (f.printL.length + 1) f hf (by omega)
-  refine ⟨mkCD T ca, by rw [parse, print_toList]; exact compoundParser_result_ok T l _ h1, ?_⟩
+  have hw' : v.weightFix = false ∨ ∀ e ∈ ca, atomicWeight T e.1 ≠ 0 := by
+    rcases hw with hw | hw
+    · exact Or.inl hw
+    · exact Or.inr (fun e he => ne_of_gt (weight_pos_of_weighted T hw h2 he))
+  refine ⟨mkCD T ca, by rw [parse, print_toList]; exact compoundParser_result_ok v T l _ h1 hw', ?_⟩
   refine ⟨pairwise_strictAsc h2.sorted, by simp [mkCD], ?_, ?_, ?_, ?_⟩
   · intro z
     constructor
@@ -65,8 +75,9 @@ theorem parse_print_counts (T : Tables) (l : Locale) (f : Formula) (hf : f.WF (e
 /-- **parse_print**: for every well-formed formula all of whose elements have an atomic weight, the parser
     returns the composition the property describes: strictly ascending elements, counts = expansion, totals,
     mass fractions = weight·count/molar mass, all positive, summing to 1 (exact rationals). -/
-theorem parse_print (T : Tables) (l : Locale) (f : Formula) (hf : f.WF (elementsOf T)) (hw : f.Weighted (elementsOf T)) :
-    ∃ cd, (parse T l f.print).result = .ok cd ∧
+theorem parse_print (v : Variant) (T : Tables) (l : Locale) (f : Formula) (hf : f.WF (elementsOf T))
+    (hw : f.Weighted (elementsOf T)) :
+    ∃ cd, (parse v T l f.print).result = .ok cd ∧
       (∀ x ∈ cd.massFractions, x.isSome = true) ∧
       IsCompositionOf (atomicWeight T) (f.eval (elementsOf T)) (toComposition cd) := by
   obtain ⟨ca, k, h1, h2⟩ := parseSimple_ok T (f.printL.length + 1) f hf (by omega)
@@ -76,33 +87,28 @@ theorem parse_print (T : Tables) (l : Locale) (f : Formula) (hf : f.WF (elements
     subst hca
     rw [← h2.count] at hz
     simp at hz
-  have hwpos : ∀ e ∈ ca, 0 < atomicWeight T e.1 := by
-    intro e he
-    have hpos : 0 < f.eval (elementsOf T) e.1 := by rw [← entry_eq h2 he]; exact h2.pos e he
-    obtain ⟨w, hw1, hw2⟩ := hw e.1 (occurs_of_eval_pos _ hpos)
-    simp only [elementsOf] at hw1
-    by_cases h0 : atomicWeight T e.1 = 0
-    · simp [h0] at hw1
-    · simp only [h0, if_false, Option.some.injEq] at hw1
-      rw [hw1]; exact hw2
+  have hwpos : ∀ e ∈ ca, 0 < atomicWeight T e.1 := fun e he => weight_pos_of_weighted T hw h2 he
   have := composition_of_inv (atomicWeight T) h2 hne hwpos
-  exact ⟨mkCD T ca, by rw [parse, print_toList]; exact compoundParser_result_ok T l _ h1, this.1, this.2⟩
+  have hres : (parse v T l f.print).result = .ok (mkCD T ca) := by
+    rw [parse, print_toList]
+    exact compoundParser_result_ok v T l _ h1 (Or.inr (fun e he => ne_of_gt (hwpos e he)))
+  exact ⟨mkCD T ca, hres, this.1, this.2⟩
 
 /-- **parse_reorder**: reordering the terms of a formula (at any nesting level) does not change the result. -/
-theorem parse_reorder (T : Tables) (l : Locale) {f g : Formula} (h : Reorder f g)
+theorem parse_reorder (v : Variant) (T : Tables) (l : Locale) {f g : Formula} (h : Reorder f g)
     (hf : f.WF (elementsOf T)) (hg : g.WF (elementsOf T)) :
-    (parse T l f.print).result = (parse T l g.print).result :=
-  parse_eval_invariant T l hf hg (eval_reorder _ h)
+    (parse v T l f.print).result = (parse v T l g.print).result :=
+  parse_eval_invariant v T l hf hg (eval_reorder _ h)
 
 /-- **parse_expand_group**: replacing a parenthesised group `(inner)sub` by the terms of `inner` with their
     subscripts multiplied by `sub` does not change the result. -/
-theorem parse_expand_group (T : Tables) (l : Locale) (pre inner inner' rest : Formula) (sub : Sub)
+theorem parse_expand_group (v : Variant) (T : Tables) (l : Locale) (pre inner inner' rest : Formula) (sub : Sub)
     (hs : Scaled sub.value inner inner')
     (hf : (pre.append (.group inner sub rest)).WF (elementsOf T))
     (hg : (pre.append (inner'.append rest)).WF (elementsOf T)) :
-    (parse T l (pre.append (.group inner sub rest)).print).result =
-      (parse T l (pre.append (inner'.append rest)).print).result := by
-  apply parse_eval_invariant T l hf hg
+    (parse v T l (pre.append (.group inner sub rest)).print).result =
+      (parse v T l (pre.append (inner'.append rest)).print).result := by
+  apply parse_eval_invariant v T l hf hg
   intro z
   rw [eval_append, eval_append, eval_append, eval_scaled _ hs z]
   simp only [Formula.eval]
@@ -111,74 +117,135 @@ theorem parse_expand_group (T : Tables) (l : Locale) (pre inner inner' rest : Fo
 
 /-- every string (any bytes, any length) with a character outside the formula alphabet is rejected:
     NULL and one error. -/
-theorem parse_rejects_outside_alphabet (T : Tables) (l : Locale) (s : List Char)
-    (h : ∃ c ∈ s, inAlphabet c = false) : ∃ e, (compoundParser T l (some s)).result = .error e := by
+theorem parse_rejects_outside_alphabet (v : Variant) (T : Tables) (l : Locale) (s : List Char)
+    (h : ∃ c ∈ s, inAlphabet c = false) : ∃ e, (compoundParser v T l (some s)).result = .error e := by
   obtain ⟨e, he⟩ := parseSimple_alphabet T (s.length + 1) s (by omega) h
-  exact ⟨e.err, compoundParser_result_err T l s he⟩
+  exact ⟨e.err, compoundParser_result_err v T l s he⟩
 
 /-- every string with unbalanced parentheses is rejected. -/
-theorem parse_rejects_unbalanced (T : Tables) (l : Locale) (s : List Char) (h : ¬ Balanced s) :
-    ∃ e, (compoundParser T l (some s)).result = .error e := by
+theorem parse_rejects_unbalanced (v : Variant) (T : Tables) (l : Locale) (s : List Char) (h : ¬ Balanced s) :
+    ∃ e, (compoundParser v T l (some s)).result = .error e := by
   obtain ⟨e, he⟩ := parseLevel_unbalanced T (parseSimple T s.length) s h
-  exact ⟨e.err, compoundParser_result_err T l s he⟩
+  exact ⟨e.err, compoundParser_result_err v T l s he⟩
 
 /-- every formula-shaped text that is empty or contains an unknown symbol, a zero subscript, a malformed
     subscript (`Sub.junk`: no digit or more than one point) or empty parentheses — at any depth — is rejected. -/
-theorem parse_rejects_invalid (T : Tables) (l : Locale) (f : Formula) (hs : f.Shape)
-    (h : f = .nil ∨ ¬ f.Known (elementsOf T)) : ∃ e, (parse T l f.print).result = .error e := by
+theorem parse_rejects_invalid (v : Variant) (T : Tables) (l : Locale) (f : Formula) (hs : f.Shape)
+    (h : f = .nil ∨ ¬ f.Known (elementsOf T)) : ∃ e, (parse v T l f.print).result = .error e := by
   obtain ⟨e, he⟩ := parseSimple_invalid T (f.printL.length + 1) f hs h (by omega)
-  exact ⟨e.err, by rw [parse, print_toList]; exact compoundParser_result_err T l _ he⟩
+  exact ⟨e.err, by rw [parse, print_toList]; exact compoundParser_result_err v T l _ he⟩
 
 /-- the rejection clause of the property at full strength: a formula-shaped text that is not a well-formed
     formula over elements with atomic weights is rejected. -/
-def parse_rejects_full : Prop :=
+def parse_rejects_full (v : Variant) : Prop :=
   ∀ (T : Tables) (l : Locale) (f : Formula), f.Shape →
-    ¬ (f.WF (elementsOf T) ∧ f.Weighted (elementsOf T)) → ∃ e, (parse T l f.print).result = .error e
+    ¬ (f.WF (elementsOf T) ∧ f.Weighted (elementsOf T)) → ∃ e, (parse v T l f.print).result = .error e
 
-/-- what the code does instead: **every** well-formed formula is accepted, also when an element has no atomic
-    weight (`AtomicWeight(Z, NULL)` returns 0 and the error is discarded, xraylib-parser.c:354,359).  The set of
-    inputs on which `parse_rejects_full` fails is exactly {well-formed, not all weighted}. -/
-theorem parse_accepts_weightless (T : Tables) (l : Locale) (f : Formula) (hf : f.WF (elementsOf T)) :
-    ∃ cd, (parse T l f.print).result = .ok cd := by
-  obtain ⟨cd, h, _⟩ := parse_print_counts T l f hf
+/-- what the shipped code does instead: **every** well-formed formula is accepted, also when an element has no
+    atomic weight (`AtomicWeight(Z, NULL)` returns 0 and the error is discarded, xraylib-parser.c:354,359).  The
+    set of inputs on which `parse_rejects_full` fails is exactly {well-formed, not all weighted}. -/
+theorem parse_accepts_weightless (v : Variant) (hv : v.weightFix = false) (T : Tables) (l : Locale) (f : Formula)
+    (hf : f.WF (elementsOf T)) : ∃ cd, (parse v T l f.print).result = .ok cd := by
+  obtain ⟨cd, h, _⟩ := parse_print_counts v T l f hf (Or.inl hv)
   exact ⟨cd, h⟩
 
-/-- the property's rejection clause is **false** for the code as it is: `Rf` is accepted
+/-- the property's rejection clause is **false** for the shipped code: `Rf` is accepted
     (replayed on the library: `parse C Rf` → molarMass 0, mass fraction NaN). -/
-theorem parse_rejects_full_fails : ¬ parse_rejects_full := by
+theorem parse_rejects_full_fails (v : Variant) (hv : v.weightFix = false) : ¬ parse_rejects_full v := by
   intro h
   obtain ⟨e, he⟩ := h T0 ⟨['C']⟩ fRf fRf_wf.2.1 (fun hh => fRf_not_weighted hh.2)
-  obtain ⟨cd, hcd⟩ := parse_accepts_weightless T0 ⟨['C']⟩ fRf fRf_wf
+  obtain ⟨cd, hcd⟩ := parse_accepts_weightless v hv T0 ⟨['C']⟩ fRf fRf_wf
   rw [hcd] at he
   cases he
+
+/-- with the repair C07-2 the rejection clause holds in full. -/
+theorem parse_rejects_full_fixed (v : Variant) (hv : v.weightFix = true) : parse_rejects_full v := by
+  intro T l f hs hbad
+  by_cases hwf : f.WF (elementsOf T)
+  · have hnw : ¬ f.Weighted (elementsOf T) := fun hw => hbad ⟨hwf, hw⟩
+    obtain ⟨ca, k, h1, h2⟩ := parseSimple_ok T (f.printL.length + 1) f hwf (by omega)
+    have hres : (parse v T l f.print).result = .error .zRange := by
+      rw [parse, print_toList]
+      exact compoundParser_result_weightless v T l _ h1 hv (exists_weightless_entry T hwf hnw h2)
+    exact ⟨.zRange, hres⟩
+  · apply parse_rejects_invalid v T l f hs
+    by_cases hn : f = .nil
+    · exact Or.inl hn
+    · exact Or.inr (fun hk => hwf ⟨hn, hs, hk⟩)
+
+/-- what is returned for the witness: molar mass 0 and a non-finite (0/0) mass fraction. -/
+theorem parse_weightless_nan : (compoundParser asIs T0 ⟨['C']⟩ (some ['R', 'f'])).result =
+    .ok { elements := [104], nAtoms := [1], massFractions := [none], nAtomsAll := 1, molarMass := 0 } := by
+  rw [compoundParser_result_ok asIs T0 _ ['R', 'f'] rf_atoms (Or.inl rfl)]
+  simp [mkCD, cdiv, atomicWeight, T0]
 
 /-! ## the numeric locale -/
 
 /-- "parsing leaves process-global state such as the numeric locale as it found it" -/
-def locale_restored_full : Prop := ∀ (T : Tables) (l : Locale) (s : Option (List Char)), (compoundParser T l s).locale = l
+def locale_restored_full (v : Variant) : Prop :=
+  ∀ (T : Tables) (l : Locale) (s : Option (List Char)), (compoundParser v T l s).locale = l
 
-/-- what the code does: after any call with a non-NULL string `LC_NUMERIC` is `"C"`, whatever it was. -/
-theorem locale_after_call (T : Tables) (l : Locale) (s : List Char) : (compoundParser T l (some s)).locale = ⟨['C']⟩ := by
-  simp only [compoundParser, setlocaleNumeric]
-  split <;> rfl
+/-- what the shipped code does: after any call with a non-NULL string `LC_NUMERIC` is `"C"`, whatever it was. -/
+theorem locale_after_call (v : Variant) (hv : v.localeFix = false) (T : Tables) (l : Locale) (s : List Char) :
+    (compoundParser v T l (some s)).locale = ⟨['C']⟩ := by
+  rw [compoundParser_locale, hv]; rfl
 
-/-- false for the code as it is: `backup_locale = setlocale(LC_NUMERIC, "C")` is the NEW locale name
+/-- false for the shipped code: `backup_locale = setlocale(LC_NUMERIC, "C")` is the NEW locale name
     (witness replayed on the library: `parse C.utf8 H2O` leaves `LC_NUMERIC=C`). -/
-theorem locale_restored_full_fails : ¬ locale_restored_full := by
+theorem locale_restored_full_fails (v : Variant) (hv : v.localeFix = false) : ¬ locale_restored_full v := by
   intro h
   have := h T0 ⟨['C', '.', 'u', 't', 'f', '8']⟩ (some ['H'])
-  rw [locale_after_call] at this
+  rw [locale_after_call v hv] at this
   cases this
 
 /-- the locale is left as found exactly when it was `"C"` already (or the argument is NULL). -/
-theorem locale_restored_partial (T : Tables) (l : Locale) (s : Option (List Char))
-    (h : l.numeric = ['C'] ∨ s = none) : (compoundParser T l s).locale = l := by
+theorem locale_restored_partial (v : Variant) (T : Tables) (l : Locale) (s : Option (List Char))
+    (h : l.numeric = ['C'] ∨ s = none) : (compoundParser v T l s).locale = l := by
   cases s with
   | none => rfl
   | some s =>
     rcases h with h | h
-    · rw [locale_after_call]; cases l; simp only at h; rw [h]
+    · rw [compoundParser_locale]
+      split
+      · rfl
+      · cases l; simp only at h; rw [h]
     · cases h
+
+/-- with the repair C07-1 the locale is left as found, for every locale state and every argument. -/
+theorem locale_restored_fixed (v : Variant) (hv : v.localeFix = true) : locale_restored_full v := by
+  intro T l s
+  cases s with
+  | none => rfl
+  | some s => rw [compoundParser_locale, hv]; rfl
+
+/-! ## the heap (process-global state as well) -/
+
+/-- after the call (and `FreeCompoundData` on success) no block allocated by the call is left -/
+def heap_balanced_full (v : Variant) : Prop :=
+  ∀ (T : Tables) (l : Locale) (s : Option (List Char)), liveAfterFree (compoundParser v T l s) = 0
+
+/-- false for the shipped code, on an error path (`Uu`: 2 blocks stay allocated — every `return 0` of
+    `CompoundParserSimple` skips the `free`s) and on a success path (`(H)`: `tempBracketAtoms` of
+    xraylib-parser.c:283-289 is never freed); both replayed on the library with the allocation counter. -/
+theorem heap_balanced_full_fails : ¬ heap_balanced_full asIs := by
+  intro h
+  have h1 : liveAfterFree (compoundParser asIs T0 ⟨['C']⟩ (some ['U', 'u'])) = 2 := by decide
+  have := h T0 ⟨['C']⟩ (some ['U', 'u'])
+  omega
+
+/-- the success-path leak in the model: one block per nesting level without a direct element symbol -/
+theorem heap_leak_leading_group :
+    liveAfterFree (compoundParser asIs T0 ⟨['C']⟩ (some ['(', 'H', ')'])) = 1 ∧
+    liveAfterFree (compoundParser asIs T0 ⟨['C']⟩ (some ['(', '(', 'H', ')', ')'])) = 2 := by
+  constructor <;> decide
+
+/-- with the repair C07-3 nothing is left behind (the repaired heap behaviour is modelled coarsely — all exits
+    free everything — and is tied to the code by the correspondence run, live-block count on every input). -/
+theorem heap_balanced_fixed (v : Variant) (hv : v.leakFix = true) : heap_balanced_full v := by
+  intro T l s
+  cases s with
+  | none => rfl
+  | some s => exact compoundParser_live_fixed v hv T l s
 
 /-! ## add_compound_data -/
 
@@ -192,48 +259,48 @@ theorem add_compound_spec (A B : CD) (wA wB : Rat) (hA : StrictAsc A.elements) (
     Lemmas/Witness.lean) -/
 
 /-- `parse_print` applies to `Mg(OH)2` over `T0` -/
-example : ∃ cd, (parse T0 ⟨['C']⟩ fMgOH2.print).result = .ok cd ∧ (∀ x ∈ cd.massFractions, x.isSome = true) ∧
+example : ∃ cd, (parse asIs T0 ⟨['C']⟩ fMgOH2.print).result = .ok cd ∧ (∀ x ∈ cd.massFractions, x.isSome = true) ∧
     IsCompositionOf (atomicWeight T0) (fMgOH2.eval (elementsOf T0)) (toComposition cd) :=
-  parse_print T0 _ fMgOH2 fMgOH2_wf fMgOH2_weighted
+  parse_print asIs T0 _ fMgOH2 fMgOH2_wf fMgOH2_weighted
 
 /-- `parse_print_counts` applies to the witness `Rf` (no weight) -/
-example : ∃ cd, (parse T0 ⟨['C']⟩ fRf.print).result = .ok cd := parse_accepts_weightless T0 _ fRf fRf_wf
+example : ∃ cd, (parse asIs T0 ⟨['C']⟩ fRf.print).result = .ok cd := parse_accepts_weightless asIs rfl T0 _ fRf fRf_wf
 
 /-- `parse_reorder` applies: `Mg(OH)2` and `(OH)2Mg` -/
-example : (parse T0 ⟨['C']⟩ fMgOH2.print).result = (parse T0 ⟨['C']⟩ fOH2Mg.print).result :=
-  parse_reorder T0 _ (Reorder.comm (.atom ['M', 'g'] .one .nil)
+example : (parse asIs T0 ⟨['C']⟩ fMgOH2.print).result = (parse asIs T0 ⟨['C']⟩ fOH2Mg.print).result :=
+  parse_reorder asIs T0 _ (Reorder.comm (.atom ['M', 'g'] .one .nil)
     (.group (.atom ['O'] .one (.atom ['H'] .one .nil)) (.dec ⟨[2], none⟩) .nil)) fMgOH2_wf fOH2Mg_wf
 
 /-- `parse_expand_group` applies: `Mg(OH)2` and `MgO2H2.0` -/
-example : (parse T0 ⟨['C']⟩ fMgOH2.print).result = (parse T0 ⟨['C']⟩ fMgO2H2.print).result :=
-  parse_expand_group T0 _ (.atom ['M', 'g'] .one .nil) (.atom ['O'] .one (.atom ['H'] .one .nil))
+example : (parse asIs T0 ⟨['C']⟩ fMgOH2.print).result = (parse asIs T0 ⟨['C']⟩ fMgO2H2.print).result :=
+  parse_expand_group asIs T0 _ (.atom ['M', 'g'] .one .nil) (.atom ['O'] .one (.atom ['H'] .one .nil))
     (.atom ['O'] (.dec ⟨[2], none⟩) (.atom ['H'] (.dec ⟨[2], some [0]⟩) .nil)) .nil (.dec ⟨[2], none⟩)
     (Scaled.atom _ (by simp [Sub.value, Dec.value, Dec.fracDigits, natOfDigits])
       (Scaled.atom _ (by simp [Sub.value, Dec.value, Dec.fracDigits, natOfDigits]; norm_num) Scaled.nil))
     fMgOH2_wf fMgO2H2_wf
 
 /-- `parse_rejects_outside_alphabet` applies to `"H O"`, `parse_rejects_unbalanced` to `"H(O"` -/
-example : ∃ e, (compoundParser T0 ⟨['C']⟩ (some ['H', ' ', 'O'])).result = .error e :=
-  parse_rejects_outside_alphabet T0 _ _ ⟨' ', by simp, by decide⟩
-example : ∃ e, (compoundParser T0 ⟨['C']⟩ (some ['H', '(', 'O'])).result = .error e :=
-  parse_rejects_unbalanced T0 _ _ (by unfold Balanced; decide)
+example : ∃ e, (compoundParser asIs T0 ⟨['C']⟩ (some ['H', ' ', 'O'])).result = .error e :=
+  parse_rejects_outside_alphabet asIs T0 _ _ ⟨' ', by simp, by decide⟩
+example : ∃ e, (compoundParser asIs T0 ⟨['C']⟩ (some ['H', '(', 'O'])).result = .error e :=
+  parse_rejects_unbalanced asIs T0 _ _ (by unfold Balanced; decide)
 
 /-- `parse_rejects_invalid` applies to `H(Uu)2` (unknown symbol inside a group), `H0.0` (zero), `H1.2.3` (malformed) -/
-example : ∃ e, (parse T0 ⟨['C']⟩ (Formula.atom ['H'] .one (.group (.atom ['U', 'u'] .one .nil) (.dec ⟨[2], none⟩) .nil)).print).result = .error e :=
-  parse_rejects_invalid T0 _ _
+example : ∃ e, (parse asIs T0 ⟨['C']⟩ (Formula.atom ['H'] .one (.group (.atom ['U', 'u'] .one .nil) (.dec ⟨[2], none⟩) .nil)).print).result = .error e :=
+  parse_rejects_invalid asIs T0 _ _
     ⟨symH, trivial, ⟨Or.inr ⟨'U', 'u', rfl, by decide, by decide⟩, trivial, trivial⟩, by simp [Sub.Shape, Dec.shape, Dec.fracDigits], trivial⟩
     (Or.inr (fun h => by
       have := h.2.2.2.1.1
       revert this
       show ¬ (lookupSym T0 ['U', 'u']).isSome = true
       decide))
-example : ∃ e, (parse T0 ⟨['C']⟩ (Formula.atom ['H'] (.dec ⟨[0], some [0]⟩) .nil).print).result = .error e :=
-  parse_rejects_invalid T0 _ _ ⟨symH, by simp [Sub.Shape, Dec.shape, Dec.fracDigits], trivial⟩
+example : ∃ e, (parse asIs T0 ⟨['C']⟩ (Formula.atom ['H'] (.dec ⟨[0], some [0]⟩) .nil).print).result = .error e :=
+  parse_rejects_invalid asIs T0 _ _ ⟨symH, by simp [Sub.Shape, Dec.shape, Dec.fracDigits], trivial⟩
     (Or.inr (fun h => by
       have := h.2.1
       simp [Sub.Pos, Dec.value, Dec.fracDigits, natOfDigits] at this))
-example : ∃ e, (parse T0 ⟨['C']⟩ (Formula.atom ['H'] (.junk ['1', '.', '2', '.', '3']) .nil).print).result = .error e :=
-  parse_rejects_invalid T0 _ _ ⟨symH, ⟨by simp, by decide, Or.inl (by decide)⟩, trivial⟩
+example : ∃ e, (parse asIs T0 ⟨['C']⟩ (Formula.atom ['H'] (.junk ['1', '.', '2', '.', '3']) .nil).print).result = .error e :=
+  parse_rejects_invalid asIs T0 _ _ ⟨symH, ⟨by simp, by decide, Or.inl (by decide)⟩, trivial⟩
     (Or.inr (fun h => h.2.1))
 
 /-- `add_compound_spec` applies to {H:0.1, O:0.9} and {He:1} -/
@@ -241,8 +308,14 @@ example : IsWeightedUnion (1/2) (1/2) (cdToComp ⟨[1, 8], [2, 1], [1/10, 9/10],
     (cdToComp (addCompoundData ⟨[1, 8], [2, 1], [1/10, 9/10], 3, 18⟩ (1/2) ⟨[2], [1], [1], 1, 4⟩ (1/2))) :=
   add_compound_spec _ _ _ _ ⟨by decide, trivial⟩ trivial
 
+/-- the repaired switches are inhabited: `parse_rejects_full_fixed` rejects `Rf`, `locale_restored_fixed` keeps `C.utf8` -/
+example : ∃ e, (parse ⟨true, true, true⟩ T0 ⟨['C']⟩ fRf.print).result = .error e :=
+  parse_rejects_full_fixed ⟨true, true, true⟩ rfl T0 _ fRf fRf_wf.2.1 (fun hh => fRf_not_weighted hh.2)
+example : (compoundParser ⟨true, true, true⟩ T0 ⟨['C', '.', 'u', 't', 'f', '8']⟩ (some ['H', '2', 'O'])).locale = ⟨['C', '.', 'u', 't', 'f', '8']⟩ :=
+  locale_restored_fixed ⟨true, true, true⟩ rfl T0 _ _
+
 /-- `locale_restored_partial` applies to the state `LC_NUMERIC = "C"` -/
-example : (compoundParser T0 ⟨['C']⟩ (some ['H', '2', 'O'])).locale = ⟨['C']⟩ :=
-  locale_restored_partial T0 _ _ (Or.inl rfl)
+example : (compoundParser asIs T0 ⟨['C']⟩ (some ['H', '2', 'O'])).locale = ⟨['C']⟩ :=
+  locale_restored_partial asIs T0 _ _ (Or.inl rfl)
 
 end XrlParser.C07
